@@ -132,6 +132,10 @@ func init() {
 				"v_text_runs":               15000 * k,
 				"v_abs_noise":               3000 * k,
 				"v_min_max_height_applied":  2000 * k,
+				// sub-domains re-opened after the fixes bb45a49, d9a28ed, 89d6135
+				"domain_empty-bfc-root-box":                    200 * k,
+				"domain_collapsed-through-negative-margin":     700 * k,
+				"domain_percent-height-against-clamped-height": 120 * k,
 			} {
 				fl[name] = v
 			}
